@@ -446,10 +446,15 @@ func paths(o []FileOut) []string {
 type Reference map[string][]FileOut
 
 // reference: canonical listings, identity iteration order, one fresh
-// PackageSet per package.
+// PackageSet per package. A package whose canonical compile fails is part of
+// the reference too (refErrKey): "compiles" versus "fails" is the coarsest
+// output there is, and it must not depend on orders or history either. Only a
+// program none of whose packages compiles has no reference.
 func computeReference(p *Program) (Reference, error) {
 	ref := Reference{}
 	ctx := context.Background()
+	okCount := 0
+	var firstErr error
 	for _, pkg := range p.Packages {
 		ex := newExecState(ExecCfg{}, nil)
 		simrt.SetPermHook(ex.perm)
@@ -465,11 +470,29 @@ func computeReference(p *Program) (Reference, error) {
 			return nil, fmt.Errorf("reference panicked: %s", firstLine(pan))
 		}
 		if err != nil {
-			return nil, fmt.Errorf("reference compile %s: %w", pkg, err)
+			if firstErr == nil {
+				firstErr = fmt.Errorf("reference compile %s: %w", pkg, err)
+			}
+			ref[refErrKey(pkg)] = []FileOut{{Path: "<error>", Text: err.Error()}}
+			continue
 		}
+		okCount++
 		ref[pkg] = outs
 	}
+	if okCount == 0 && firstErr != nil {
+		return nil, firstErr
+	}
 	return ref, nil
+}
+
+func refErrKey(pkg string) string { return "\x00error:" + pkg }
+
+// refFails reports whether the canonical compile of the package fails, and how.
+func refFails(ref Reference, pkg string) (string, bool) {
+	if e, ok := ref[refErrKey(pkg)]; ok && len(e) == 1 {
+		return e[0].Text, true
+	}
+	return "", false
 }
 
 func firstLine(s string) string {
@@ -582,6 +605,18 @@ func runExec(p *Program, ref Reference, cfg ExecCfg, stats *Stats) (*Violation, 
 				s.faulty = true
 			}
 			compiledOn[op.PS]++
+			if refText, fails := refFails(ref, op.Pkg); fails {
+				// the canonical compile of this package fails: so must this one, unless the set
+				// met a fault or a lint/load call before (outside the quantifier, as below)
+				if err == nil && pan == "" && !s.faulty && !s.linted {
+					return &Violation{Class: "order_dependent_error", Form: "reference_fails", OpIndex: i, Op: op.String(), Pkg: op.Pkg,
+						Detail: "on a fresh PackageSet, under the canonical listing, this package fails with: " + truncate(refText, 400) + "\nin this execution the very same sources compile"}, ex
+				}
+				if stats != nil {
+					stats.Probes["compiles_of_packages_whose_reference_fails"]++
+				}
+				continue
+			}
 			if pan != "" {
 				if s.faulty || s.linted {
 					if stats != nil {
